@@ -143,3 +143,10 @@ def r5(rr, repo):
                 continue
             rr.ob('balanced: HELLO goes out on self.pubs whatever else is sent', bool(hello) and all(e.term == '__elem__(self.pubs).send_multipart' for e in hello), za.mod, za.S_maybe, witness=p.pc_text()[:300], key='hello-balanced')
     rr.floor('balanced paths with a scheduled HELLO', n, 1, za.mod, za.S_maybe)
+
+
+@rule('C07.R6', 'the rejoined stream never mixes ids: the receiver-side invariants C01.R8 (fresh per-id sets) and C01.R9 (the adopted id survives a timed-out call)')
+def r6(rr, repo):
+    from .c01 import r8 as c01r8, r9 as c01r9
+    c01r8(rr, repo)
+    c01r9(rr, repo)
